@@ -179,15 +179,15 @@ macro_rules! int_rows {
 }
 
 /// Template of a 14-bit CC message in the given form (self-describing or positional).
-fn cc14_template(way: &Way) -> Template {
+fn cc14_template(way: &Way) -> Option<Template> {
     let form = |m: &ControlChange14BitMessage| way.ser(m);
     let base = form(&ControlChange14BitMessage::new(Channel::new(1), ControllerNumber::new(2), U14::new(3)));
     let fields = vec![
-        ("channel".to_string(), find_num(&base, 1, "channel")),
-        ("cn".to_string(), find_num(&base, 2, "msb_controller_number")),
-        ("value".to_string(), find_num(&base, 3, "value")),
+        ("channel".to_string(), find_num(&base, 1, "channel")?),
+        ("cn".to_string(), find_num(&base, 2, "msb_controller_number")?),
+        ("value".to_string(), find_num(&base, 3, "value")?),
     ];
-    Template { base, fields }
+    Some(Template { base, fields })
 }
 
 struct PnTemplate {
@@ -197,7 +197,7 @@ struct PnTemplate {
     dt: [Value; 4],
 }
 
-fn pn_template(way: &Way) -> PnTemplate {
+fn pn_template(way: &Way) -> Option<PnTemplate> {
     let form = |m: &ParameterNumberMessage| way.ser(m);
     let (c, n, v) = (Channel::new(1), U14::new(2), U7::new(3));
     let a = form(&ParameterNumberMessage::registered_7_bit(c, n, v));
@@ -205,51 +205,51 @@ fn pn_template(way: &Way) -> PnTemplate {
     let wide = form(&ParameterNumberMessage::registered_14_bit(c, n, U14::new(3)));
     let inc = form(&ParameterNumberMessage::registered_increment(c, n, v));
     let dec = form(&ParameterNumberMessage::registered_decrement(c, n, v));
-    let p_reg = diff_path(&a, &nonreg, "is_registered");
-    let p_b14 = diff_path(&a, &wide, "is_14_bit");
-    let p_dt = diff_path(&a, &inc, "data_type");
+    let p_reg = diff_path(&a, &nonreg, "is_registered")?;
+    let p_b14 = diff_path(&a, &wide, "is_14_bit")?;
+    let p_dt = diff_path(&a, &inc, "data_type")?;
     let g = |x: &Value, p: &crate::natural::Path| get_path(x, p).unwrap().clone();
     let reg = [g(&nonreg, &p_reg), g(&a, &p_reg)];
     let b14 = [g(&a, &p_b14), g(&wide, &p_b14)];
     let dt = [g(&a, &p_dt), g(&inc, &p_dt), g(&dec, &p_dt), json!("Bogus")];
     let fields = vec![
-        ("channel".to_string(), find_num(&a, 1, "channel")),
-        ("number".to_string(), find_num(&a, 2, "number")),
-        ("value".to_string(), find_num(&a, 3, "value")),
+        ("channel".to_string(), find_num(&a, 1, "channel")?),
+        ("number".to_string(), find_num(&a, 2, "number")?),
+        ("value".to_string(), find_num(&a, 3, "value")?),
         ("reg".to_string(), p_reg),
         ("b14".to_string(), p_b14),
         ("dt".to_string(), p_dt),
     ];
-    PnTemplate { t: Template { base: a, fields }, reg, b14, dt }
+    Some(PnTemplate { t: Template { base: a, fields }, reg, b14, dt })
 }
 
 /// Natural (self-describing) representation of a structured message given by its code, with the
 /// numeric fields patched in (so that out-of-range field values can be expressed).
-fn structured_input(way: &Way, c: [i64; 4]) -> Value {
+fn structured_input(way: &Way, c: [i64; 4]) -> Option<Value> {
     let self_describing = |m: &StructuredShortMessage| way.ser(m);
     let g = |x: &Value, p: &crate::natural::Path| get_path(x, p).unwrap().clone();
-    match c[0] {
+    Some(match c[0] {
         0..=3 => {
             let base = self_describing(&structured_of([c[0], 1, 2, 3]));
-            let t = Template { fields: vec![("a".into(), find_num(&base, 1, "channel")), ("b".into(), find_num(&base, 2, "field 2")),
-                                           ("c".into(), find_num(&base, 3, "field 3"))], base };
+            let t = Template { fields: vec![("a".into(), find_num(&base, 1, "channel")?), ("b".into(), find_num(&base, 2, "field 2")?),
+                                           ("c".into(), find_num(&base, 3, "field 3")?)], base };
             t.with(&[("a", json!(c[1])), ("b", json!(c[2])), ("c", json!(c[3]))])
         }
         4..=6 => {
             let base = self_describing(&structured_of([c[0], 1, 2, 0]));
-            let t = Template { fields: vec![("a".into(), find_num(&base, 1, "channel")), ("b".into(), find_num(&base, 2, "field 2"))], base };
+            let t = Template { fields: vec![("a".into(), find_num(&base, 1, "channel")?), ("b".into(), find_num(&base, 2, "field 2")?)], base };
             t.with(&[("a", json!(c[1])), ("b", json!(c[2]))])
         }
         8 if c[1] < 7 => {
             let base = self_describing(&structured_of([8, c[1], 1, 0]));
-            let t = Template { fields: vec![("a".into(), find_num(&base, 1, "nibble"))], base };
+            let t = Template { fields: vec![("a".into(), find_num(&base, 1, "nibble")?)], base };
             t.with(&[("a", json!(c[2]))])
         }
         8 => {
             let base = self_describing(&structured_of([8, 7, 0, 0]));
             let hours = self_describing(&structured_of([8, 7, 1, 0]));
-            let p_h = diff_path(&base, &hours, "hours_count_ms_bit");
-            let p_t = diff_path(&base, &self_describing(&structured_of([8, 7, 0, 1])), "time_code_type");
+            let p_h = diff_path(&base, &hours, "hours_count_ms_bit")?;
+            let p_t = diff_path(&base, &self_describing(&structured_of([8, 7, 0, 1])), "time_code_type")?;
             let tv = if (0..4).contains(&c[3]) { g(&self_describing(&structured_of([8, 7, 0, c[3]])), &p_t) } else { json!("Bogus") };
             let hv = if c[2] != 0 { g(&hours, &p_h) } else { g(&base, &p_h) };
             let t = Template { fields: vec![("h".into(), p_h), ("t".into(), p_t)], base };
@@ -257,11 +257,11 @@ fn structured_input(way: &Way, c: [i64; 4]) -> Value {
         }
         9 | 10 => {
             let base = self_describing(&structured_of([c[0], 2, 0, 0]));
-            let t = Template { fields: vec![("a".into(), find_num(&base, 2, "field"))], base };
+            let t = Template { fields: vec![("a".into(), find_num(&base, 2, "field")?)], base };
             t.with(&[("a", json!(c[1]))])
         }
         v => self_describing(&structured_of([v, 0, 0, 0])),
-    }
+    })
 }
 
 /// Patched natural representations of the composite types, presented in one `way`.
@@ -270,15 +270,17 @@ fn composite_rows(w: &mut ChunkWriter, way: &Way) {
     if k_raw != 0 {
         // RawShortMessage: natural representation of (144, 1, 2), patched
         let raw_base = way.ser(&RawShortMessage::from_bytes((144, U7::new(1), U7::new(2))).unwrap());
-        let raw_t = Template {
-            fields: vec![("s".into(), find_num(&raw_base, 144, "status")), ("a".into(), find_num(&raw_base, 1, "data 1")),
-                         ("b".into(), find_num(&raw_base, 2, "data 2"))],
-            base: raw_base,
-        };
+        let raw_t = (|| {
+            Some(Template {
+                fields: vec![("s".into(), find_num(&raw_base, 144, "status")?), ("a".into(), find_num(&raw_base, 1, "data 1")?),
+                             ("b".into(), find_num(&raw_base, 2, "data 2")?)],
+                base: raw_base.clone(),
+            })
+        })();
         let ss = [0i64, 1, 2, 127, 128, 144, 176, 239, 240, 241, 247, 248, 255, 256, 300, -1];
         let ds = [0i64, 1, 127, 128, 200, 255, 256, -1];
         let one = |w: &mut ChunkWriter, kind: i64, s: i64, a: i64, b: i64, input: Value| {
-            let (r, _) = guarded(|| way.de::<RawShortMessage>(input));
+            let (r, _) = guarded(|| way.de::<RawShortMessage>(input.clone()));
             let mut row = vec![kind, s, a, b];
             match r {
                 Some(Ok(m)) => {
@@ -287,16 +289,37 @@ fn composite_rows(w: &mut ChunkWriter, way: &Way) {
                     row.extend_from_slice(&[1, m.status_byte() as i64, m.data_byte_1().get() as i64,
                                             m.data_byte_2().get() as i64, t.unwrap_or(PANIC),
                                             st.map(|x| x[0]).unwrap_or(PANIC)]);
+                    // is the input simply the natural representation of what came out?
+                    row.push((way.ser(&m) == input) as i64);
                 }
                 Some(Err(_)) => row.push(0),
                 None => row.push(PANIC),
             }
             w.push(&row);
         };
+        // the template is trusted only if, for every VALID point of the grid, patching reproduces the natural
+        // representation of the value built through the checked constructors
+        let raw_t = raw_t.filter(|t| {
+            let ok = ss.iter().all(|&s| ds.iter().all(|&a| ds.iter().all(|&b| {
+                if !(0..256).contains(&s) || !(0..128).contains(&a) || !(0..128).contains(&b) {
+                    return true;
+                }
+                match RawShortMessage::from_bytes((s as u8, U7::new(a as u8), U7::new(b as u8))) {
+                    Ok(m) => t.with(&[("s", json!(s)), ("a", json!(a)), ("b", json!(b))]) == way.ser(&m),
+                    Err(_) => true,
+                }
+            })));
+            if !ok {
+                crate::chunks::note(&format!("unlearnable representation: RawShortMessage is not field-wise in way {}", way.code));
+            }
+            ok
+        });
         for &s in &ss {
             for &a in &ds {
                 for &b in &ds {
-                    one(w, k_raw, s, a, b, raw_t.with(&[("s", json!(s)), ("a", json!(a)), ("b", json!(b))]));
+                    if let Some(t) = &raw_t {
+                        one(w, k_raw, s, a, b, t.with(&[("s", json!(s)), ("a", json!(a)), ("b", json!(b))]));
+                    }
                     // the same three numbers as a byte string (formats with a bytes type)
                     if way.de.is_some() && [s, a, b].iter().all(|x| (0..256).contains(x)) {
                         one(w, 12, s, a, b, json!({"$bytes": [s, a, b]}));
@@ -311,13 +334,30 @@ fn composite_rows(w: &mut ChunkWriter, way: &Way) {
         }
     }
 
-    if k_cc14 != 0 {
-        let cc14_t = cc14_template(way);
-        for &c in &[0i64, 15, 16, 255, -1] {
-            for &n in &[0i64, 1, 31, 32, 33, 63, 64, 127, 128, -1] {
-                for &v in &[0i64, 1, 16383, 16384, 65535, -1] {
+    let cc14_cs = [0i64, 15, 16, 255, -1];
+    let cc14_ns = [0i64, 1, 31, 32, 33, 63, 64, 127, 128, -1];
+    let cc14_vs = [0i64, 1, 16383, 16384, 65535, -1];
+    let cc14_t = if k_cc14 != 0 { cc14_template(way) } else { None }.filter(|t| {
+        let ok = cc14_cs.iter().all(|&c| cc14_ns.iter().all(|&n| cc14_vs.iter().all(|&v| {
+            if !(0..16).contains(&c) || !(0..128).contains(&n) || !(0..16384).contains(&v) {
+                return true;
+            }
+            match guarded(|| ControlChange14BitMessage::new(Channel::new(c as u8), ControllerNumber::new(n as u8), U14::new(v as u16))).0 {
+                Some(m) => t.with(&[("channel", json!(c)), ("cn", json!(n)), ("value", json!(v))]) == way.ser(&m),
+                None => true,
+            }
+        })));
+        if !ok {
+            crate::chunks::note(&format!("unlearnable representation: ControlChange14BitMessage is not field-wise in way {}", way.code));
+        }
+        ok
+    });
+    if let Some(cc14_t) = cc14_t {
+        for &c in &cc14_cs {
+            for &n in &cc14_ns {
+                for &v in &cc14_vs {
                     let val = cc14_t.with(&[("channel", json!(c)), ("cn", json!(n)), ("value", json!(v))]);
-                    let (r, _) = guarded(|| way.de::<ControlChange14BitMessage>(val));
+                    let (r, _) = guarded(|| way.de::<ControlChange14BitMessage>(val.clone()));
                     let mut row = vec![k_cc14, c, n, v];
                     match r {
                         Some(Ok(m)) => {
@@ -328,6 +368,7 @@ fn composite_rows(w: &mut ChunkWriter, way: &Way) {
                             });
                             row.extend_from_slice(&[1, m.channel().get() as i64, m.msb_controller_number().get() as i64,
                                                     m.value().get() as i64, lsb.unwrap_or(PANIC), enc.unwrap_or(PANIC)]);
+                            row.push((way.ser(&m) == val) as i64);
                         }
                         Some(Err(_)) => row.push(0),
                         None => row.push(PANIC),
@@ -338,18 +379,53 @@ fn composite_rows(w: &mut ChunkWriter, way: &Way) {
         }
     }
 
-    if k_pn != 0 {
-        let t = pn_template(way);
-        for &c in &[0i64, 9, 15, 16] {
-            for &n in &[0i64, 1, 5, 6, 7, 127, 128, 16383, 16384] {
-                for &v in &[0i64, 1, 15, 16, 100, 127, 128, 640, 3000, 16383, 16384] {
+    let pn_cs = [0i64, 9, 15, 16];
+    let pn_ns = [0i64, 1, 5, 6, 7, 127, 128, 16383, 16384];
+    let pn_vs = [0i64, 1, 15, 16, 100, 127, 128, 640, 3000, 16383, 16384];
+    let pn_t = if k_pn != 0 { pn_template(way) } else { None }.filter(|t| {
+        let mut ok = true;
+        for &c in &pn_cs {
+            for &n in &pn_ns {
+                for &v in &pn_vs {
+                    for reg in 0..2i64 {
+                        for b14 in 0..2i64 {
+                            for dt in 0..3i64 {
+                                if !(0..16).contains(&c) || !(0..16384).contains(&n) || !(0..16384).contains(&v) {
+                                    continue;
+                                }
+                                let msg = [c, n, v, reg, b14, dt];
+                                // valid = the checked constructors build it and it reports back exactly these fields
+                                if let Some(m) = guarded(|| crate::basics::build_pn(&msg)).0 {
+                                    let rep: Vec<i64> = crate::basics::pn_report(&m).as_array().unwrap().iter().map(|x| x.as_i64().unwrap()).collect();
+                                    if rep == msg {
+                                        let val = t.t.with(&[("channel", json!(c)), ("number", json!(n)), ("value", json!(v)),
+                                                             ("reg", t.reg[reg as usize].clone()), ("b14", t.b14[b14 as usize].clone()),
+                                                             ("dt", t.dt[dt as usize].clone())]);
+                                        ok &= val == way.ser(&m);
+                                    }
+                                }
+                            }
+                        }
+                    }
+                }
+            }
+        }
+        if !ok {
+            crate::chunks::note(&format!("unlearnable representation: ParameterNumberMessage is not field-wise in way {}", way.code));
+        }
+        ok
+    });
+    if let Some(t) = pn_t {
+        for &c in &pn_cs {
+            for &n in &pn_ns {
+                for &v in &pn_vs {
                     for reg in 0..2 {
                         for b14 in 0..2 {
                             for dt in 0..4 {
                                 let val = t.t.with(&[("channel", json!(c)), ("number", json!(n)), ("value", json!(v)),
                                                      ("reg", t.reg[reg as usize].clone()), ("b14", t.b14[b14 as usize].clone()),
                                                      ("dt", t.dt[dt as usize].clone())]);
-                                let (r, _) = guarded(|| way.de::<ParameterNumberMessage>(val));
+                                let (r, _) = guarded(|| way.de::<ParameterNumberMessage>(val.clone()));
                                 let mut row = vec![k_pn, c, n, v, reg, b14, dt];
                                 match r {
                                     Some(Ok(m)) => {
@@ -362,6 +438,7 @@ fn composite_rows(w: &mut ChunkWriter, way: &Way) {
                                         row.push(1);
                                         row.extend(rep.as_array().unwrap().iter().map(|x| x.as_i64().unwrap()));
                                         row.push(enc.unwrap_or(PANIC));
+                                        row.push((way.ser(&m) == val) as i64);
                                     }
                                     Some(Err(_)) => row.push(0),
                                     None => row.push(PANIC),
@@ -421,14 +498,38 @@ fn composite_rows(w: &mut ChunkWriter, way: &Way) {
         for v in [7, 11, 12, 13, 14, 15, 16, 17, 18, 19, 20, 21, 22] {
             codes.push([v, 0, 0, 0]);
         }
+        // a variant's template is trusted only if, for every VALID code of the variant, patching reproduces the
+        // natural representation of the value built through the checked constructors (all kinds of quarter
+        // frame form one group)
+        let mut bad_groups: Vec<i64> = vec![];
+        for c in &codes {
+            let built = guarded(|| structured_of(*c)).0.filter(|m| structured_code(m) == *c);
+            let fine = match (built, structured_input(way, *c)) {
+                (Some(m), Some(input)) => input == way.ser(&m),
+                (Some(_), None) => false,
+                (None, _) => true,
+            };
+            if !fine && !bad_groups.contains(&c[0]) {
+                bad_groups.push(c[0]);
+                crate::chunks::note(&format!("unlearnable representation: StructuredShortMessage variant group {} is not field-wise in way {}", c[0], way.code));
+            }
+        }
         for c in codes {
-            let (r, _) = guarded(|| way.de::<StructuredShortMessage>(structured_input(way, c)));
+            if bad_groups.contains(&c[0]) {
+                continue;
+            }
+            let input = match structured_input(way, c) {
+                Some(x) => x,
+                None => continue,
+            };
+            let (r, _) = guarded(|| way.de::<StructuredShortMessage>(input.clone()));
             let mut row = vec![k_st, c[0], c[1], c[2], c[3]];
             match r {
                 Some(Ok(m)) => {
                     let got = structured_code(&m);
                     row.push(1);
                     row.extend_from_slice(&got);
+                    row.push((way.ser(&m) == input) as i64);
                 }
                 Some(Err(_)) => row.push(0),
                 None => row.push(PANIC),
@@ -531,6 +632,9 @@ pub fn table_serde(dir: &str, _tier: &str, _seed: u64, per: usize) -> (usize, u6
         roundtrip_rows(&mut w, way);
     }
     let _ = structured_of;
+    for u in crate::natural::UNLEARNABLE.lock().unwrap().iter() {
+        crate::chunks::note(&format!("unlearnable representation: {u}"));
+    }
     w.finish()
 }
 
